@@ -74,6 +74,11 @@ let () =
                    of_sx (M.c10_project p (str_ pm) (str_ zm)); of_sx (M.c10_allowed t)]
          | _ -> failwith "c10-tcase: five strings expected")
     | _ -> failwith "c10-tcase: bad case");
+  (* oracle only: (plain-text zod-text) -> verdict *)
+  Registry.register "compare" (fun s ->
+    match list s with
+    | [a; b] -> of_sx (M.c10_compare (str_ a) (str_ b))
+    | _ -> failwith "c10-compare: bad case");
   (* malformed stream: (mapping tstruct) -> (in-domain model-strings) *)
   Registry.register "strings" (fun s ->
     match list s with
